@@ -25,7 +25,10 @@ for pid in args:
         r = subprocess.run([os.path.join(HERE, 'check'), pid, '--tier', tier], env=e, capture_output=True, text=True)
         ev = json.load(open(os.path.join(HERE, 'evidence', pid + '.json')))
         bad = [l for l in r.stdout.splitlines() if l.startswith('VIOLATION')]
-        print(pid, tier, 'seed', seed, 'rc', r.returncode, 'wall', ev['wall_s'], 'violations', len(bad))
+        print(pid, tier, 'seed', seed, 'rc', r.returncode, 'wall', ev['wall_s'], 'violations', len(bad), flush=True)
+        for l in r.stdout.splitlines():
+            if ' violation kind=' in l or l.startswith('INCONCLUSIVE') or ' problem: ' in l:
+                print('   ', l[:700], flush=True)
         for name, fr in ev['coverage']['floors'].items():
             obs.setdefault(name, []).append(fr['observed'])
     floors.setdefault(pid, {})[tier] = {name: int(min(v) * 0.4) for name, v in obs.items()}
